@@ -424,6 +424,13 @@ pub mod details {
                 channel.state.store(self.initial_channel_state.0, Ordering::Relaxed);
             }
 
+            // The creator registers its port before the storage becomes visible to others.
+            // Otherwise the other side could open the storage, attach and detach as last
+            // port and destroy the storage while the creator, which still owns it, is about
+            // to register; the creator would then fail and destroy the storage a second time
+            // by name - possibly a fresh instance another port is already attached to.
+            data.state.store(port_to_register.value(), Ordering::Relaxed);
+
             true
         })
         .open_or_create();
@@ -454,11 +461,12 @@ pub mod details {
                 }
             };
 
-            storage.get().reserve_port(port_to_register.value(), msg)?;
-
             if storage.has_ownership() {
+                // port was already registered in the initializer
                 storage.release_ownership();
             } else {
+                storage.get().reserve_port(port_to_register.value(), msg)?;
+
                 let msg = "Failed to open existing connection";
 
                 if storage.get().channels[0].submission_queue.capacity()
